@@ -98,7 +98,29 @@ def _prefix_driver_names(txt, names):
     return "\n".join(fix_line(l) for l in txt.split("\n"))
 
 
-def build_driver(ctx, pkg, sources, tags=("verif",), race=False, name=None, helper=True, extra=None):
+def build_driver(ctx, pkg, sources, tags=("verif",), race=False, name=None, helper=True, extra=None, optional=None, optional_extra=None):
+    """`optional`: white-box driver sources (need unexported identifiers).  If the build with them fails, the driver is
+    built from `sources` alone and the white-box legs are reported as skipped."""
+    if optional is None:
+        # convention: harness/<d>/wb_test.go next to harness/<d>/driver_test.go is the white-box part
+        optional = []
+        for src in sources:
+            wb = os.path.join(os.path.dirname(src), "wb_test.go")
+            if os.path.basename(src) == "driver_test.go" and os.path.exists(os.path.join(VERIF, "harness", wb)):
+                optional.append(wb)
+    if optional:
+        try:
+            ex = dict(extra or {})
+            ex.update(optional_extra or {})
+            return _build_driver(ctx, pkg, list(sources) + list(optional), tags, race, name, helper, ex)
+        except Infra as e:
+            ctx.skipped.append("white-box driver part of %s does not build against the working tree (skipped): %s"
+                               % (pkg, str(e).splitlines()[2][:200] if len(str(e).splitlines()) > 2 else str(e)[:200]))
+            ctx.log("white-box part of %s skipped (does not build)" % pkg)
+    return _build_driver(ctx, pkg, sources, tags, race, name, helper, extra)
+
+
+def _build_driver(ctx, pkg, sources, tags=("verif",), race=False, name=None, helper=True, extra=None):
     """Compile the in-package driver(s) `sources` (paths under harness/) into a
     test binary of /repo/<pkg> using a build overlay: /repo is not touched."""
     name = name or pkg.replace("/", "_")
@@ -164,7 +186,10 @@ def read_ndjson(path):
         for line in f:
             line = line.strip()
             if line:
-                out.append(json.loads(line))
+                e = json.loads(line)
+                if isinstance(e, dict) and "op" in e and "_src" not in e:
+                    e["_src"] = path          # the driver process this event came from (for history replays)
+                out.append(e)
     return out
 
 
@@ -477,11 +502,70 @@ def reproduce_by_trace(ctx, binp, all_events, bad_events, extra_env=None):
     return confirmed
 
 
-def reproduce(ctx, binp, bad_events, extra_env=None):
-    """A rejected event becomes a violation only if re-running the real code on
-    the same logged input gives the same rejected output (rule 1)."""
+def reproduce_concurrent(ctx, binp, all_events, bad_events, module, extra_env=None, tries=3, chunk=None, stateful=False):
+    """Rejected events of a concurrent phase: which call is disturbed depends on the schedule, so the same input need not
+    deviate twice.  The whole trace is run again (up to `tries` times) and judged by TLC again; the rejections are
+    confirmed when a re-run is rejected as well (at any event of the concurrent phase).  The re-run's rejected events
+    are reported together with the originals."""
     if not bad_events:
         return []
+    confirmed = []
+    for tno in sorted({b.get("t") for b in bad_events}):
+        tev = [e for e in all_events if e.get("t") == tno]
+        mine = [b for b in bad_events if b.get("t") == tno]
+        again_bad = []
+        for k in range(tries):
+            d = ctx.rundir("reproduce_conc_t%s_%d" % (tno, k))
+            seen, inputs = set(), []
+            for e in tev:                      # one input per (op, in): the driver emits every distinct answer
+                kk = digest([e["op"], e["in"]])
+                if kk not in seen:
+                    seen.add(kk)
+                    inputs.append(dict(op=e["op"], **{"in": e["in"]}))
+            write_ndjson(os.path.join(d, "in.ndjson"), inputs)
+            run_driver(ctx, binp, "replay", os.path.join(d, "out.ndjson"), infile=os.path.join(d, "in.ndjson"), extra_env=extra_env)
+            again = read_ndjson(os.path.join(d, "out.ndjson"))
+            for i, a in enumerate(again):
+                a["t"], a["i"] = 1, i + 1
+            ev0, tn0 = ctx.events, ctx.traces
+            again_bad = validate_trace(ctx, module, again, chunk=chunk, label="T_reproduce_conc", stateful=stateful)
+            ctx.events, ctx.traces = ev0, tn0
+            if again_bad:
+                break
+        if again_bad:
+            confirmed += mine
+        else:
+            ctx.notes.append("concurrent rejection not reproduced in %d re-runs, dropped: %s" % (tries, json.dumps(mine[0])[:300]))
+    return confirmed
+
+
+def reproduce(ctx, binp, bad_events, extra_env=None, history=None):
+    """A rejected event becomes a violation only if re-running the real code on
+    the same logged input gives the same rejected output (rule 1).  With `history` (all events of the run): an event
+    that does not repeat on its own is given a second chance with everything its driver process did before it (a
+    deviation may depend on earlier calls: caches, reused buffers, memoised state)."""
+    if not bad_events:
+        return []
+    if history is not None:
+        first = reproduce(ctx, binp, bad_events, extra_env=extra_env)
+        rest = [e for e in bad_events if not any(e is c for c in first)]
+        if not rest:
+            return first
+        key = lambda e: digest([e.get("op"), e.get("in")])
+        for src in sorted({e.get("_src", "") for e in rest}):
+            hist = [e for e in history if e.get("_src", "") == src]
+            last = max(i for i, e in enumerate(hist) if any(e is r for r in rest)) if any(any(e is r for r in rest) for e in hist) else len(hist) - 1
+            d = ctx.rundir("reproduce_history")
+            write_ndjson(os.path.join(d, "in.ndjson"), [dict(op=e["op"], **{"in": e["in"]}) for e in hist[:last + 1]])
+            run_driver(ctx, binp, "replay", os.path.join(d, "out.ndjson"), infile=os.path.join(d, "in.ndjson"), extra_env=extra_env)
+            seen = {}
+            for a in read_ndjson(os.path.join(d, "out.ndjson")):
+                seen.setdefault(key(a), []).append(a.get("out"))
+            for b in [r for r in rest if r.get("_src", "") == src]:
+                if b.get("out") in seen.get(key(b), []):
+                    ctx.notes.append("rejection reproduced only together with the calls before it (history-dependent)")
+                    first.append(b)
+        return first
     d = ctx.rundir("reproduce")
     inp = os.path.join(d, "in.ndjson")
     write_ndjson(inp, [dict(op=e["op"], **{"in": e["in"]}) for e in bad_events])
